@@ -199,6 +199,11 @@ func c06Send(h *Handler, o c06Obs, msm7 int, label string) {
 
 func c06Run(k int, anyStart bool) {
 	t := c06StartTime()
+	if k > 2 && c06EpochLo != c06EpochHi && c06S0 == c06NewYear {
+		// thorough tier, both epochs: the longer histories run in the
+		// ordinary week only (three messages in both epochs take 40 minutes)
+		k = 2
+	}
 	verifWitness("reached")
 	h := New(verifTimeOf(c06S0+t), slog.LevelInfo)
 	var s c06State
